@@ -427,3 +427,34 @@ def r18h(ctx):
             else:
                 ctx.bad(cid, c.module.loc(call), f"the file infos are selected by {sorted(idx[0])} and the fragments by {sorted(idx[1])}: `load_statistics` pairs them by position, so the statistics of one file are cached under the path of another and every later plan (lengths, divisions, row-group pruning) reads another file's numbers")
     ctx.floor("paired samples handed to load_statistics", n, 1)
+
+
+@rule(
+    "R18i",
+    ["C18", "C06"],
+    """A PART THAT SELECTS ROW GROUPS IS COUNTED BY ITS ROW GROUPS: with split_row_groups a partition ("part") is a file plus a list of row
+    groups. Its row count and min / max statistics are those of the SELECTED row groups (`md.row_group(rg).num_rows`); the file-level
+    total of the footer (`<file metadata>.num_rows`) counts every row group of the file and may only be used where the part takes the
+    whole file (`row_groups is None`). Otherwise len(), lengths and the divisions derived from the statistics belong to the whole file
+    for every part cut from it.""",
+)
+def r18i(ctx):
+    model = ctx.model
+    mod, fn = model.func("io.parquet", "_read_partition_stats_group")
+    n = 0
+    for f in [fn] + [x for x in ast.walk(fn) if isinstance(x, ast.FunctionDef) and x is not fn]:
+        mds = {t.id for st in ast.walk(f) if isinstance(st, ast.Assign) and ast.unparse(st.value).endswith(".metadata") for t in st.targets if isinstance(t, ast.Name)}
+        for a in (x for x in ast.walk(f) if isinstance(x, ast.Attribute) and x.attr == "num_rows" and isinstance(x.value, ast.Name)):
+            if a.value.id not in mds:
+                n += 1
+                continue
+            n += 1
+            p = flow.point_of(f, a)
+            whole = p is not None and any(pol and isinstance(t, ast.Compare) and isinstance(t.ops[0], ast.Is) and ast.unparse(t.comparators[0]) == "None" and "row_group" in ast.unparse(t.left) for t, pol in flow.facts(p))
+            cid = f"io.parquet._read_partition_stats_group:file-total:{ast.unparse(a)}"
+            if whole:
+                ctx.ok(cid, mod.loc(a), "the file total is used only for parts that take the whole file")
+            else:
+                ctx.bad(cid, mod.loc(a), f"`{ast.unparse(a)}` is the row count of the WHOLE file; it is added for a part that may select only some row groups (no `row_groups is None` guard): every part cut from one file reports the file's total, so len() and the partition lengths of a split_row_groups read are multiplied")
+    ctx.ok("row-counts-scanned", "", f"{n} row counts read from parquet metadata; file totals only for whole-file parts")
+    ctx.floor("row counts read from parquet metadata", n, 1)
